@@ -67,7 +67,11 @@ AsCodedFocus(items, f, op) ==
 
 (* ---- operation alphabet ---- *)
 Fresh(k) == [j \in 1..k |-> 6 + j]
-MkOp(nm, a, b, s, new) == [n |-> nm, a |-> a, b |-> b, s |-> s, new |-> new]
+\* rhs: how the caller spells the new items (a list, a tuple, a generator, an iterator).  The contract does not look at it:
+\* whatever a built-in list accepts as right-hand side is accepted, with the same result (ListApply reads op.new only).
+RhsKinds == {"list", "tuple", "gen", "iter"}
+MkOp(nm, a, b, s, new) == [n |-> nm, a |-> a, b |-> b, s |-> s, new |-> new, rhs |-> "list"]
+MkOpRhs(nm, a, b, s, new, h) == [n |-> nm, a |-> a, b |-> b, s |-> s, new |-> new, rhs |-> h]
 
 OpsFor(Idx, Steps, NewLens, Vals) ==
        {MkOp("setslice", a, b, s, Fresh(k)) : a \in Idx \cup {None}, b \in Idx \cup {None}, s \in Steps \cup {None, 0}, k \in NewLens}
@@ -77,6 +81,11 @@ OpsFor(Idx, Steps, NewLens, Vals) ==
   \cup {MkOp("insert", a, 0, 0, Fresh(1)) : a \in Idx}
   \cup {MkOp("append", 0, 0, 0, Fresh(1))}
   \cup {MkOp(nm, 0, 0, 0, Fresh(k)) : nm \in {"extend", "iadd"}, k \in NewLens}
+  \* in-place concatenation takes any iterable (MonitoredList.__iadd__(Iterable)); extend / slice assignment of the
+  \* focus list are declared for sized collections: a tuple there
+  \cup {MkOpRhs("iadd", 0, 0, 0, Fresh(k), h) : k \in NewLens, h \in RhsKinds}
+  \cup {MkOpRhs("extend", 0, 0, 0, Fresh(k), "tuple") : k \in NewLens}
+  \cup {MkOpRhs("setslice", a, a, None, Fresh(k), "tuple") : a \in Idx, k \in NewLens}
   \cup {MkOp("pop", a, 0, 0, <<>>) : a \in Idx \cup {None}}
   \cup {MkOp("remove", v, 0, 0, <<>>) : v \in Vals}
   \cup {MkOp(nm, 0, 0, 0, <<>>) : nm \in {"reverse", "sort", "clear"}}
